@@ -40,6 +40,8 @@ func genCompile(c *Ctx) {
 	kindsTable(c)
 	gen.CheckImports(c.Run, c.Prog)
 	importTables(c)
-	namesTables(c, freeNameList(c, "G-RESERVED"), false, false)
+	// the names moq invents for unnamed parameters are identifiers (what they are is C09's business)
+	c.namingIdentOnly = true
+	namesTables(c, freeNameList(c, "G-RESERVED"), false, true)
 	gen.CheckVarNameOwners(c.Run, c.Prog)
 }
